@@ -970,7 +970,8 @@ def _readUrl(  # noqa: C901
                     # at least in GAE
                     decodedCssText = content.decode(encoding if encoding else 'utf-8')
 
-            except UnicodeDecodeError as e:
+            except (UnicodeError, LookupError) as e:
+                # not decodable or an unknown encoding
                 log.warn(e, neverraise=True)
                 decodedCssText = None
 
